@@ -11,8 +11,7 @@ object members as the stored `key, value` node pairs in order (duplicates kept),
 `str_[p .. p + n)` of the document's **final** string buffer, numbers with their stored kind (`uint` / `sint` / `real`
 bit pattern).  `Spec.Json.parse` is the reference evaluator.
 
-Hypotheses as in `Props/C01.lean`; for numbers only `ExpSmall bs` (written exponents below 100000 or tokens of at most 9600 bytes; known finding F6
-lives outside): by property C04 (`Proofs/ParseNumberOK.lean`: `numberOK_of_exp`) number tokens of an accepted document
+Hypotheses as in `Props/C01.lean`; nothing is assumed about numbers (known finding F6 is fixed in the code): by property C04 (`Proofs/ParseNumberOK.lean`: `numberOK_all`) number tokens of an accepted document
 are stored with the kind and value `Spec.Number.scanNumber` gives.  `NumberCorrectOn bs`, the former per-input
 assumption, is gone: it is false for valid texts such as `["1.5.3"]` (see `Props/C01.lean`).
 -/
@@ -26,10 +25,10 @@ open Sonic.Gen Sonic.Spec Sonic.Model.Parse Sonic.Proofs.Parse
     step only writes at or above `pos_`, `Pres`, by `C05_prefix_preserved`). -/
 theorem C03_value (W : Nat) (hW : 0 < W) (hW' : W ≤ 63) (pad bs : List Nat) (raw : List (Option Node)) (d : Doc)
     (hbs : ∀ x ∈ bs, x < 256) (hpad : ∀ x ∈ pad, x < 256) (hlen : pad.length = 61)
-    (hraw : raw.length = setUpCap bs.length) (hL : bs.length + 4 < 2 ^ 32) (hexp : ExpSmall bs)
+    (hraw : raw.length = setUpCap bs.length) (hL : bs.length + 4 < 2 ^ 32)
     (v : JVal) (hv : Json.parse bs = .ok v) :
     ∃ r, parseDoc W pad raw d bs = .ok r ∧ r.err = 0 ∧ r.doc.value = some v := by
-  have h := parseDoc_spec ⟨hW, hW', hbs, hpad, hlen, hL⟩ (numberOK_of_exp hexp) hraw d
+  have h := parseDoc_spec ⟨hW, hW', hbs, hpad, hlen, hL⟩ (numberOK_all (by omega)) hraw d
   rw [hv] at h
   obtain ⟨r, hr, he, _, hval, _⟩ := h
   exact ⟨r, hr, he, hval⟩
@@ -37,10 +36,10 @@ theorem C03_value (W : Nat) (hW : 0 < W) (hW' : W ≤ 63) (pad bs : List Nat) (r
 /-- conversely, whenever the model succeeds its document is the value the reference evaluator assigns to the text -/
 theorem C03_value_of_ok (W : Nat) (hW : 0 < W) (hW' : W ≤ 63) (pad bs : List Nat) (raw : List (Option Node)) (d : Doc)
     (hbs : ∀ x ∈ bs, x < 256) (hpad : ∀ x ∈ pad, x < 256) (hlen : pad.length = 61)
-    (hraw : raw.length = setUpCap bs.length) (hL : bs.length + 4 < 2 ^ 32) (hexp : ExpSmall bs)
+    (hraw : raw.length = setUpCap bs.length) (hL : bs.length + 4 < 2 ^ 32)
     (r : Result) (hr : parseDoc W pad raw d bs = .ok r) (he : r.err = 0) :
     ∃ v, Json.parse bs = .ok v ∧ r.doc.value = some v := by
-  have h := parseDoc_spec ⟨hW, hW', hbs, hpad, hlen, hL⟩ (numberOK_of_exp hexp) hraw d
+  have h := parseDoc_spec ⟨hW, hW', hbs, hpad, hlen, hL⟩ (numberOK_all (by omega)) hraw d
   cases hj : Json.parse bs with
   | ok v =>
     rw [hj] at h
@@ -69,9 +68,9 @@ theorem C03_sax_assemble (n : Node) (hfin : finNode n = true) (sax : Sax) (ns : 
     `C03_sax_assemble` applies to it) -/
 theorem C03_root_finished (W : Nat) (hW : 0 < W) (hW' : W ≤ 63) (pad bs : List Nat) (raw : List (Option Node))
     (d : Doc) (hbs : ∀ x ∈ bs, x < 256) (hpad : ∀ x ∈ pad, x < 256) (hlen : pad.length = 61)
-    (hraw : raw.length = setUpCap bs.length) (hL : bs.length + 4 < 2 ^ 32) (hexp : ExpSmall bs)
+    (hraw : raw.length = setUpCap bs.length) (hL : bs.length + 4 < 2 ^ 32)
     (r : Result) (hr : parseDoc W pad raw d bs = .ok r) (he : r.err = 0) : finNode r.doc.root = true := by
-  obtain ⟨v, _, hval⟩ := C03_value_of_ok W hW hW' pad bs raw d hbs hpad hlen hraw hL hexp r hr he
+  obtain ⟨v, _, hval⟩ := C03_value_of_ok W hW hW' pad bs raw d hbs hpad hlen hraw hL r hr he
   unfold Doc.value at hval
   cases hs : r.doc.str with
   | none => rw [hs] at hval; exact fin_of_toJVal _ _ _ hval
@@ -104,7 +103,7 @@ example : treeOf (parse 32 runPad [0x5B, 0x22, 0x61, 0x5C, 0x75, 0x30, 0x30, 0x6
 example : ∃ r, parseDoc 32 runPad (List.replicate 16 none) Doc.fresh exStrs = .ok r ∧ r.err = 0 ∧
     r.doc.value = some (.arr [.str [0x61, 0x0A, 0x2F, 0x78], .str [0x09, 0x62, 0x5C]]) :=
   C03_value 32 (by decide) (by decide) runPad exStrs _ Doc.fresh (by decide) (by decide) (by decide) (by decide)
-    (by decide) (expSmall_of_check _ (by decide +kernel)) _ (by rfl)
+    (by decide) _ (by rfl)
 
 /-- `C03_sax_assemble` on `[null,{"k":[]}]`: the eight callbacks rebuild the tree on an empty 16-slot stack -/
 example : ∃ sax', runEvs (Sax.setUp 0 (List.replicate 16 none))
